@@ -19,6 +19,11 @@
 (*               or <<name, "raise", class>> for every field it shows      *)
 (*        tagrow <<tag, "ok", mask, keyopt>> or <<tag, "raise", class>>    *)
 (*  <<"endtable">>  all derived bit fields have been reported              *)
+(*  <<"retable">>   the caller reads the table again WITHOUT another       *)
+(*        assign_fields: a layout was reported earlier and every field     *)
+(*        defined since has an explicit length and position, so every      *)
+(*        field is still assigned (AllPositioned verifies that claim);     *)
+(*        "scope" events and "endtable" follow as after assign_fields      *)
 (*  <<"end">>                                                              *)
 (* State st: the fields defined, the scopes derived, the layout reported   *)
 (* so far, whether a layout was attempted, the table being reported.       *)
@@ -151,6 +156,13 @@ Checks(e) ==
          [TableAfterAssign |-> st.open,
           AllHandlesReported |-> st.handles \subseteq st.shown,
           AllFieldsReported |-> \A f \in st.fields : \E x \in st.layout : SameField(x, f)]
+    [] e[1] = "retable" ->
+         [TableClosed |-> ~st.open,
+          \* (of the driver) after field assignment: some layout was reported, and every field is in it or was
+          \* defined with both a length and a position
+          AllPositioned |-> /\ st.layout # {}
+                            /\ \A f \in st.fields : \/ f.flen > 0 /\ f.fstart >= 0
+                                                    \/ \E x \in st.layout : SameField(x, f)]
     [] e[1] = "end" -> [TableClosed |-> ~st.open]
     [] OTHER -> [UnknownEvent |-> FALSE]
 
@@ -160,6 +172,7 @@ Apply(e) ==
     [] e[1] = "assign" -> AssignApply(e)
     [] e[1] = "scope" -> ScopeApply(e)
     [] e[1] = "endtable" -> [st EXCEPT !.open = FALSE]
+    [] e[1] = "retable" -> [st EXCEPT !.open = TRUE, !.seen = {}, !.shown = {}]
     [] OTHER -> st
 
 Bad == LET ck == Checks(Ev) IN {c \in DOMAIN ck : ~ck[c]}
